@@ -71,13 +71,22 @@ def make_diff(rng, enc, kind, damaged, long_first=0):
         break
 
     if long_first:
-        lines.insert(0, 'Index: ' + 'p/' * long_first)
+        # (multi-byte characters throughout, where the codec has them: any
+        # byte offset then falls inside a character now and then)
+        unit = '\u00e9/' if gen.enc_ok('\u00e9', enc or 'utf-8') and \
+            rng.chance(0.5) else 'p/'
+        lines.insert(0, 'Index: ' + unit * long_first)
 
     text = nl.join(lines) + nl
 
     if not damaged and rng.chance(0.15) and len(lines) > 1:
         # no final line ending (the object model holds the diff as given)
         text = text[:-len(nl)]
+
+    if enc in ('utf-16', 'utf-32') and rng.chance(0.2):
+        # big-endian with a byte order mark under the generic name
+        return (b'\xfe\xff' if enc == 'utf-16' else b'\x00\x00\xfe\xff') + \
+            text.encode(enc + '-be')
 
     return text.encode(enc or 'utf-8')
 
@@ -127,7 +136,7 @@ def generate(rng, tier, cls):
             if k < 15:
                 fattrs['diff'] = {'$bytes': make_diff(
                     rng, enc, kind, False,
-                    rng.choice([50, 511, 512, 513, 2048, 40000])
+                    rng.choice([50, 511, 512, 513, 2048, 40000, 70000])
                     if rng.chance(0.06) else 0).hex()}
             elif k < 17:
                 fattrs['diff'] = {'$bytes': make_diff(rng, enc, kind,
